@@ -154,7 +154,19 @@ class Rename:
             return resource in resources
 
     def _is_renaming_a_module(self):
-        return isinstance(self.old_pyname.get_object(), pyobjects.AbstractModule)
+        pyobject = self.old_pyname.get_object()
+        if not isinstance(pyobject, pyobjects.AbstractModule):
+            return False
+        # ``import mod as m``, ``m = mod``: a name that is bound to the module
+        # is not the module's name; renaming it leaves the file alone
+        resource = pyobject.get_resource()
+        if resource is None:
+            module_name = pyobject.get_name().split(".")[-1]
+        elif resource.is_folder():
+            module_name = resource.name
+        else:
+            module_name = resource.name[:-3]
+        return self.old_name == module_name
 
     def is_method(self):
         pyname = self.old_pyname
